@@ -399,13 +399,11 @@ pub fn check_update(pool: &Pool, case: &Case, j: usize, inp: &psbt::Input, fresh
                 bad.push("tap_scripts: an entry does not verify against the output key".to_string());
             }
         }
-        if fresh && inp.tap_scripts.len() != {
-            let mut hs: Vec<_> = tap.leaves.iter().map(|l| (l.control_block.serialize(), l.script.clone())).collect();
-            hs.sort();
-            hs.dedup();
-            hs.len()
-        } {
-            bad.push(format!("tap_scripts has {} entries for {} leaves", inp.tap_scripts.len(), tap.leaves.len()));
+        // one entry per (leaf script, merkle branch) of the tree (equal scripts at different
+        // positions have different control blocks)
+        let positions: usize = tap.spend_info.script_map().values().map(|set| set.len()).sum();
+        if fresh && inp.tap_scripts.len() != positions {
+            bad.push(format!("tap_scripts has {} entries for {} leaf positions", inp.tap_scripts.len(), positions));
         }
         // key origins: exactly the descriptor's keys, with the leaves each key occurs in
         let mut expected: std::collections::BTreeMap<XOnlyPublicKey, Vec<TapLeafHash>> = Default::default();
